@@ -55,33 +55,36 @@ def check_late_lookup(ctx):
         raise AnalysisError("no class registered for kind 'rule'")
     f = prog.find_method(cq, '__call__')
     enf_p = f.params[3]
-    lookups = [x for x in walk_no_nested(f.node)
-               if isinstance(x, ast.Subscript)
-               and U(x.value) == enf_p + '.rules']
-    ok = len(lookups) == 1 and U(lookups[0].slice) == 'self.match'
-    ctx.ob('C06.LATE-LOOKUP', ok, ctx.where(f.module, lookups[0]
-                                            if lookups else f.node),
-           f.qual, 'alias resolution ' + (U(lookups[0]) if lookups
-                                          else '(none)'),
-           'the referenced rule is looked up in enforcer.rules by '
-           'self.match at call time' if ok else
-           'the alias does not resolve self.match in enforcer.rules at '
-           'call time')
-    # the looked-up rule is what is evaluated
-    calls = [x for x in walk_no_nested(f.node) if isinstance(x, ast.Call)
-             and is_check_call(prog, f.module, x)]
-    for c in calls:
-        a = check_call_args(c)
+    from ..dte import inline_helpers
+    t = Table(prog, f, inline=inline_helpers(
+        prog, modules={CHECKS}, exclude={CHECKS + '._check'}), max_depth=4)
+    W = ctx.where(f.module, f.node)
+    n = 0
+    for p in t.paths:
+        if p.outcome.kind != 'return' or p.outcome.expr is None:
+            continue
+        e = t.expand(p.outcome.expr)
+        if not (isinstance(e, ast.Call) and is_check_call(
+                prog, t.module_of(p.outcome.frame), e)):
+            continue
+        n += 1
+        a = check_call_args(e)
         r = a.get('rule')
-        ok = r is not None and lookups and (
-            U(r) == U(lookups[0]) or any(
-                isinstance(s, ast.Assign) and U(s.value) == U(lookups[0])
-                and U(s.targets[0]) == U(r)
-                for s in ast.walk(f.node)))
-        ctx.ob('C06.LATE-LOOKUP', bool(ok), ctx.where(f.module, c), f.qual,
-               'evaluates ' + (U(r) if r is not None else '?'),
-               'the alias evaluates the current definition' if ok else
-               'the alias does not evaluate the looked-up definition')
+        rx = t.expand(r) if r is not None else None
+        ok = isinstance(rx, ast.Subscript) and U(rx.value) == \
+            enf_p + '.rules' and U(t.expand(rx.slice)) == 'self.match'
+        ctx.ob('C06.LATE-LOOKUP', ok, '%s:%d' % (W.split(':')[0],
+                                                 p.outcome.line), f.qual,
+               'alias resolution ' + (U(rx) if rx is not None else '(none)'),
+               'the referenced rule is looked up in enforcer.rules by '
+               'self.match at call time and that definition is evaluated'
+               if ok else
+               'the alias does not resolve self.match in enforcer.rules at '
+               'call time / does not evaluate the looked-up definition')
+    if n == 0:
+        ctx.ob('C06.LATE-LOOKUP', False, W, f.qual, 'alias resolution (none)',
+               'the alias does not resolve self.match in enforcer.rules at '
+               'call time: no path evaluates a looked-up definition')
     # no state kept on the alias object, no lookup at construction
     c = prog.classes[cq]
     stores = []
@@ -117,7 +120,9 @@ def check_transparent(ctx):
            'evaluating a rule: reference writes state (%s): a later '
            'evaluation of the same reference can decide differently from '
            'its definition' % effs[0].path)
-    t = Table(prog, f)
+    from ..dte import inline_helpers
+    t = Table(prog, f, inline=inline_helpers(
+        prog, modules={CHECKS}, exclude={CHECKS + '._check'}), max_depth=4)
     bad = None
     for p in t.paths:
         exc = any(c.kind == 'exc' for c in p.conds)
@@ -166,7 +171,9 @@ def check_adapter(ctx):
         ctx.ob('C06.ADAPTER', False, ctx.where(f.module, f.node), f.qual,
                'signature %s' % prm, 'the adapter\'s parameter roles changed')
         return
-    t = Table(prog, f)
+    from ..dte import inline_helpers
+    t = Table(prog, f, inline=inline_helpers(prog, modules={CHECKS},
+                                             classes=False), max_depth=4)
     W = ctx.where(f.module, f.node)
     rows = {}
     for p in t.paths:
